@@ -70,6 +70,15 @@ class C16(SimpleProperty):
             case["hist"] = {"first": first, "later": [[k, r] for k, r in later]}
         if mode == "pd":
             case["target"] = rng.choice([col, col, (col + 1) % ncol, ncol])
+            r_ = rng.random()
+            if r_ < 0.2:
+                case["index"] = list(range(nrow - 1, -1, -1))                 # reversed (e.g. after sort_values)
+            elif r_ < 0.35:
+                case["index"] = [3 * k + 5 for k in range(nrow)]              # gaps (e.g. after filtering)
+            elif r_ < 0.45:
+                case["index"] = [f"row{k}" for k in range(nrow)]              # labels (after set_index)
+            elif r_ < 0.5:
+                case["index"] = [0] * nrow                                    # repeated labels (after concat)
         else:
             case["header"] = rng.random() < 0.6
             case["sep"] = rng.choice([None, None, ","])
@@ -101,6 +110,9 @@ class C16(SimpleProperty):
         out["scalar"] = sc
         if case["mode"] == "pd":
             df = pd.DataFrame(case["rows"], columns=list(range(len(case["rows"][0]))), dtype=object)
+            if case.get("index"):
+                # row labels other than 0..n-1 in order (a frame that was sorted, filtered or re-indexed before)
+                df.index = case["index"]
             kw = dict(strict=case["s"], passthrough=case["p"])
             try:
                 m = getattr(conv, "pd_" + case["meth"])
@@ -268,7 +280,7 @@ class C16(SimpleProperty):
                      "bulk call once, then " + ", ".join(f"add_record({common.show_record(r)}, merge={k == 'merge'})"
                                                           for k, r in case["hist"]["later"]))
         if case["mode"] == "pd":
-            return [head, f"pd_{case['meth']}(DataFrame({case['rows']!r}), column={case['col']}, target_column={case['target']}, {flags})",
+            return [head, f"pd_{case['meth']}(DataFrame({case['rows']!r}, index={case.get('index')!r}), column={case['col']}, target_column={case['target']}, {flags})",
                     f"-> {impl.get('rows', impl.get('e'))!r}", f"scalar results: {impl['scalar']!r}"]
         return [head, f"file_{case['meth']}(<file with rows {case['rows']!r}>, {case['col']}, sep={case['sep']!r}, "
                       f"header={case['header']}, {flags})", f"-> raised {impl['result']!r}; file now {impl['rows']!r}; "
@@ -279,7 +291,10 @@ class C16(SimpleProperty):
         lo = 1 if case.get("header") else 0
         for i in range(len(rows) - 1, lo - 1, -1):
             if len(rows) - lo > 1:
-                yield {**case, "rows": rows[:i] + rows[i + 1:]}
+                c2 = {**case, "rows": rows[:i] + rows[i + 1:]}
+                if case.get("index"):
+                    c2["index"] = case["index"][:i] + case["index"][i + 1:]
+                yield c2
         if case.get("hist"):
             # the history and the records belong together: either drop the history, or keep both as they are
             yield {k: v for k, v in case.items() if k != "hist"}
